@@ -334,6 +334,16 @@ def _interpret(res, asm, pairs, out, err, rc, unit):
         ob["id"] = "%s::%s::%s::%s" % (unit, ob["fn"], kind, slug(key, 90))
         ob["rendered"] = d.get("rendered", "")[:3000]
         failures.append(ob)
+    # Tool limit, not a property violation: a closure with a MUTABLE binding handed to an std adapter (`.map(|mut x| { ..; x })`)
+    # has an effect the verifier cannot see through -- it knows the adapter's contract only in terms of the closure's own
+    # (inferred, effect-free) specification. An obligation that fails in a function containing such a closure is undecided.
+    _eff = re.compile(r"\.(map|and_then|map_err|map_or|map_or_else|unwrap_or_else|or_else|then|inspect|for_each)\(\s*(move\s*)?\|[^|]*\bmut\b[^|]*\|")
+    for ob in list(failures):
+        for first, last, label in asm.fn_spans:
+            if label == ob.get("fn") and any(_eff.search(pairs[k][0]) for k in range(first - 1, min(last, len(pairs))) if pairs[k][1][0] == "src"):
+                undecided.append("closure with a mutable binding passed to an std adapter in %s: its effect is outside the verifier's reach (obligation %s not decided)" % (label, slug(ob["id"], 120)))
+                failures.remove(ob)
+                break
     if undecided:
         res.status = "undecided"
         res.reason = "; ".join(undecided[:5])
